@@ -266,6 +266,18 @@ impl<T: ?Sized> RwLock<T> {
         );
         drop(state);
 
+        // If we already hold the read lock, fail with `WouldBlock` so we can diagnose potential deadlocks.
+        // This must happen before touching the semaphore, or the permit would never be given back.
+        if typ == RwLockType::Read {
+            let state = self.state.borrow();
+            let reentrant = matches!(&state.holder, RwLockHolder::Read(readers) if readers.contains(me));
+            drop(state);
+            if reentrant {
+                thread::switch();
+                return false;
+            }
+        }
+
         // Semaphore is never closed, so an error here is always `NoPermits`.
         let mut acquired = self.semaphore.try_acquire(typ.num_permits()).is_ok();
         if acquired {
